@@ -20,6 +20,13 @@ Initializers (mutable, thawed from the generator's tuples):
   {'k':'s', 'elem':key, 'len':L, 'u8':bool, 'var':v}  string literal; v None (letters) or one of STRVARS (embedded
                                              null characters, escape sequences / extended characters)
   {'k':'l', 'items':[(desig, ini)..], 'tc':bool}   braced list; desig = None | [('f',name)|('i',i)|('r',a,b)..]
+  {'k':'x', 'ty':T}                          expression of struct/union type T (an automatic variable y<n> of exactly
+                                             that type, set up member by member by assignments): initializes a
+                                             subobject of type T as a whole (6.7.9p13), reached positionally, by a
+                                             designator or by brace elision (p20: "only enough initializers from the
+                                             list are taken ..." - descent stops at the subobject of type T)
+  further styles of 'a': ('iv', v) the integer constant v (byte family); variants of 's': ('bp', b1, b2, form) the
+  adjacent bytes b1, b2 (byte family, see byte_pair_body)
 
 Leaf values ("dump encoding", one or two longs per leaf): integers and _Bool by value, pointers as (object, offset)
 codes, floating leaves BYTEWISE: the 4 bytes of a float, the 8 bytes of a double, the 10 significant bytes of an x87
@@ -344,7 +351,7 @@ def is_chararr_for(t, s):
 
 # ---- objects ---------------------------------------------------------------
 class O:
-    __slots__ = ('kids', 'val', 'active', 'dead')
+    __slots__ = ('kids', 'val', 'active', 'dead', 'fromx')
 
 
 def mk(t):
@@ -352,6 +359,7 @@ def mk(t):
     o.val = None
     o.active = None
     o.dead = None
+    o.fromx = False     # strictly inside a subobject that a struct-valued expression initialized as a whole
     k = t[0]
     if k == 'arr':
         o.kids = [mk(t[1]) for _ in range(t[2] or 0)]
@@ -420,6 +428,10 @@ def conv(t, v, st):
     return iv & ((1 << bits) - 1)
 
 
+def signed_key(t):
+    return SC[t[1]][2]
+
+
 def assign_atom(a, t, st):
     """First time an expression atom lands on a leaf: choose its spelling and value from its ordinal and the leaf type."""
     if 'text' in a:
@@ -439,6 +451,18 @@ def assign_atom(a, t, st):
             st.flags.add('to:' + t[1])
         elif Fraction(a['val'].frac).denominator != 1 or abs(a['val'].frac) >= 2 ** 53:
             st.flags.add('to:integer')
+    elif style[0] == 'iv':
+        # byte family: the integer constant itself; for the signed character types a byte >= 128 is written as the
+        # value the array element has (b - 256), so that the conversion is defined
+        if kind == 'ptr':
+            raise Invalid("integer constant for a pointer")
+        v = style[1]
+        if kind == 'int' and signed_key(t) and v >= 1 << (SC[t[1]][1] - 1) and t[0] == 'sc':
+            v -= 1 << SC[t[1]][1]
+        a['text'], a['val'] = str(v), v
+        st.flags.add('byte-pair')
+        if style[2:]:
+            st.flags.add('%s:%s' % (style[2], byte_class(style[1], style[2] == 'b2')))
     elif style == 'plain' or style[0] == 'pa':
         if kind == 'ptr':
             if style == 'plain':
@@ -487,7 +511,12 @@ def assign_str(s, st):
         pre = 'u8'
     body, s['codes'] = str_content(n, s['len'], pre, s.get('var'))
     s['text'] = '%s"%s"' % (pre, body)
-    if s.get('var'):
+    if isinstance(s.get('var'), tuple):
+        st.flags.add('byte-pair')
+        st.flags.add('string-' + s['var'][3])
+        st.flags.add('b1:' + byte_class(s['var'][1], False))
+        st.flags.add('b2:' + byte_class(s['var'][2], True))
+    elif s.get('var'):
         st.flags.add('string-escape' if s['var'].startswith('esc') else 'string-nul')
 
 
@@ -502,6 +531,61 @@ ESC_PIECES = [('\\n', [10], [10], [10]), ('\\377', [-1], [255], [255]), ('\u00e9
               ('\U0001f600', [-16, -97, -104, -128], [0xd83d, 0xde00], [0x1f600]), ('\\0', [0], [0], [0]), ('\\t', [9], [9], [9])]
 
 
+BYTE_FORMS = ('oct3', 'cat-oct', 'cat-hex')
+# the byte family's alphabet: b1 = what an emitter may write as an escape, b2 = what could continue that escape
+BYTES1 = (0, 1, 7, 8, 9, 10, 13, 27, 31, 32, 34, 39, 63, 64, 92, 127, 128, 255)
+BYTES2 = (48, 55, 56, 57, 97, 102, 65, 120, 34, 92, 10, 0, 1, 255)
+
+
+def byte_class(b, second):
+    if second:
+        return ('odigit' if b in (48, 55) else 'digit89' if b in (56, 57) else 'hexletter' if b in (97, 102, 65) else 'x' if b == 120
+                else 'quote' if b in (34, 92) else 'newline' if b == 10 else 'nul' if b == 0 else 'ctl' if b < 32 else 'high')
+    return 'nul' if b == 0 else 'ctl' if b < 32 else 'high' if b >= 127 else 'punct' if b in (34, 39, 63, 92) else 'print'
+
+
+
+def byte_spelling(b, form, last):
+    """Spelling of byte b inside a string literal.  Printable ASCII is written as itself (\" and \\ escaped); every
+    other byte as an escape sequence: 'oct3' three octal digits (never continued by the next character); 'cat-oct' /
+    'cat-hex' the SHORTEST octal / hexadecimal escape - which the next character could continue, so the literal is
+    closed right after it and the rest follows in an adjacent literal (5.1.1.2: escape sequences are converted in phase
+    5, adjacent literals are concatenated in phase 6).  -> (text, must the literal be closed after it)"""
+    if b == 34:
+        return '\\"', False
+    if b == 92:
+        return '\\\\', False
+    if b == 63:
+        return '\\?', False         # no trigraph can form
+    if 32 <= b < 127:
+        return chr(b), False
+    if form == 'oct3':
+        return '\\%03o' % b, False
+    if form == 'cat-oct':
+        return '\\%o' % b, True
+    return '\\x%x' % b, True
+
+
+def byte_pair_body(letters, L, pre, var):
+    """Byte family: elements [b1, b2] (L == 2), [b1, b2, letter] (L == 3), [letter, b1, b2, letters..] (L >= 4); the
+    element values are those of a narrow literal (type char: bytes >= 128 are negative).  In the cat forms the literal
+    is split after b1 ALWAYS (`"v\1" "23"`), so that adjacent-literal concatenation occurs for every pair."""
+    _, b1, b2, form = var
+    if pre not in ('', 'u8') or L < 2 or form not in BYTE_FORMS:
+        raise Invalid("byte pair")
+    if pre == 'u8' and (b1 >= 128 or b2 >= 128):
+        raise Invalid("byte >= 128 in u8 literal")
+    seq = [b1, b2] + [ord(c) for c in letters[:L - 2]] if L < 4 else [ord(letters[0]), b1, b2] + [ord(c) for c in letters[1:L - 2]]
+    pos1 = 0 if L < 4 else 1
+    body = ""
+    for i, b in enumerate(seq):
+        sp, close = byte_spelling(b, form, i == len(seq) - 1)
+        body += sp
+        if i < len(seq) - 1 and (close or (i == pos1 and form != 'oct3')):
+            body += '" %s"' % pre
+    return body, [b - 256 if b >= 128 else b for b in seq]
+
+
 def str_content(n, L, pre, var):
     """Body and element values (before conversion to the array's element type) of string atom number n with L elements.
     var None: letters; 'nul0' / 'nulm' / 'null': an embedded \\0 at the first / middle / last position; 'nul2': at
@@ -509,6 +593,8 @@ def str_content(n, L, pre, var):
     ESC_PIECES (a multibyte character of a narrow literal counts one element per byte, a character beyond the BMP two
     elements of a u"" literal)."""
     letters = [chr(97 + (n * 3 + j) % 26) for j in range(L)]
+    if isinstance(var, tuple):
+        return byte_pair_body(letters, L, pre, var)
     if var is None:
         return "".join(letters), [ord(c) for c in letters]
     if var in ('esc', 'esc3', 'esc7'):
@@ -535,6 +621,100 @@ def str_content(n, L, pre, var):
     return "".join('\\0' if j in pos else c for j, c in enumerate(letters)), [0 if j in pos else ord(c) for j, c in enumerate(letters)]
 
 
+def x_leaves(t, acc=""):
+    """Leaves a variable of struct/union type t is set up through: (accessor, leaf type); first member of a union."""
+    k = t[0]
+    if k in ('sc', 'bf'):
+        return [(acc, t)]
+    if k == 'arr':
+        if t[2] is None:
+            raise Invalid("flexible array member in the type of a struct expression")
+        out = []
+        for i in range(t[2]):
+            out += x_leaves(t[1], "%s[%d]" % (acc, i))
+        return out
+    out = []
+    for n, mt in (t[1][:1] if k == 'un' else t[1]):
+        if n is None:
+            raise Invalid("anonymous member in the type of a struct expression (the type needs a tag)")
+        out += x_leaves(mt, acc + "." + n)
+    return out
+
+
+def assign_x(x, t, st):
+    """Struct-valued expression: the variable y<n>; its leaves hold 40 + 7n + k (bit-fields: reduced into their range),
+    distinct from the 11 + n of the scalar atoms."""
+    if 'text' in x:
+        return
+    n = st.n
+    st.n += 1
+    x['n'] = n
+    x['text'] = "y%d" % n
+    x['setup'] = []
+    for k, (acc, lt) in enumerate(x_leaves(t)):
+        if SC[lt[1]][0] == 'ptr':
+            raise Invalid("pointer leaf in the type of a struct expression")
+        v = 40 + 7 * n + k
+        if lt[0] == 'bf':
+            v = 1 + v % ((1 << (lt[2] - 1)) - 1) if lt[2] > 2 else 1
+        if SC[lt[1]][0] == 'bool':
+            v = 1
+        x['setup'].append((acc, lt, v))
+
+
+def fill_x(o, t, x, st):
+    vals = {acc: (lt, v) for acc, lt, v in x['setup']}
+
+    def go(o, t, acc):
+        k = t[0]
+        o.fromx = 'in' if acc else 'root'
+        if k in ('sc', 'bf'):
+            o.val = conv(t, vals[acc][1], st)
+        elif k == 'arr':
+            for i, kid in enumerate(o.kids):
+                go(kid, t[1], "%s[%d]" % (acc, i))
+        elif k == 'un':
+            o.active = 0
+            go(o.kids[0], t[1][0][1], acc + "." + t[1][0][0])
+        else:
+            for kid, (n, mt) in zip(o.kids, t[1]):
+                go(kid, mt, acc + "." + n)
+    go(o, t, "")
+
+
+def x_atoms(ini):
+    """The struct-expression atoms of an evaluated initializer, in source order."""
+    if ini['k'] == 'x':
+        return [ini]
+    if ini['k'] == 'l':
+        return [a for _, sub in ini['items'] for a in x_atoms(sub)]
+    return []
+
+
+def decl_tagged(t, inner, tags):
+    """Like decl(), but every struct/union type gets a tag (T0, T1, ..): defined where it occurs first, referred to by
+    its tag afterwards (`tags`: type -> tag, filled in).  Used for cases with struct-valued expressions, whose variables
+    need the type of a member."""
+    k = t[0]
+    if k in ('sc', 'bf'):
+        return decl(t, inner)
+    if k == 'arr':
+        return decl_tagged(t[1], "%s[%s]" % (inner, "" if t[2] is None else t[2]), tags)
+    kw = "struct" if k == 'st' else "union"
+    if t in tags:
+        return "%s %s %s" % (kw, tags[t], inner)
+    if attrs(t):
+        raise Invalid("attributes in the type of a struct expression")
+    tags[t] = "T%d" % len(tags)
+    tag = tags[t]
+    body = ""
+    for n, mt in t[1]:
+        if n is None:
+            raise Invalid("anonymous member in a tagged type")
+        body += decl_tagged(mt, n, tags) + "; "
+    return "%s %s { %s} %s" % (kw, tag, body, inner)
+
+
 def step(o, t, i, st):
     k = t[0]
     if k == 'arr':
@@ -550,6 +730,11 @@ def step(o, t, i, st):
         return o.kids[i], t[1][i][1]
     if k == 'un':
         if o.active != i:
+            if o.fromx == 'in':
+                st.undefined = "initializer for a part of a subobject that a struct-valued expression initialized"
+            if o.fromx == 'root':
+                # { yU, .u.l = 1 }: whatever becomes of the rest, the later initializer for u.l applies (6.7.9p19)
+                st.flags.add('union-expr-redesignated')
             if o.active is not None:
                 o.dead.add(o.active)
                 st.flags.add('union-switch')
@@ -565,6 +750,8 @@ def step(o, t, i, st):
 def direct(t, ini):
     if ini['k'] == 'l':
         return True
+    if ini['k'] == 'x':
+        return t == ini['ty']
     if ini['k'] == 's':
         return is_chararr_for(t, ini)
     return t[0] in ('sc', 'bf')
@@ -590,6 +777,20 @@ def apply_string(o, t, s, st):
 def apply_init(o, t, ini, st):
     """Initialize the whole object o of type t by ini."""
     k = t[0]
+    if o.fromx == 'in':
+        # { y, .i.a = 1 }: whether the rest of the subobject keeps the value of y is not settled (6.7.9p19 and its
+        # footnote, DR 413; gcc drops y) - not judged
+        st.undefined = "initializer for a part of a subobject that a struct-valued expression initialized"
+    if ini['k'] == 'x':
+        if k not in ('st', 'un') or t != ini['ty']:
+            raise Invalid("struct expression for an object of another type")
+        assign_x(ini, t, st)
+        if touched(o):
+            st.flags.add('override-agg')
+        reset(o, t)
+        fill_x(o, t, ini, st)
+        st.flags.add('struct-expr')
+        return
     if ini['k'] == 'a':
         if k not in ('sc', 'bf'):
             raise Invalid("expression for aggregate")
@@ -656,6 +857,9 @@ def run_list(o, t, items, st):
                 if ct[0] not in ('arr', 'st', 'un'):
                     raise Invalid("type mismatch")
                 nt = sub_ty(ct, 0)
+                if ini['k'] == 'x':
+                    # the expression is not of the type of this aggregate: it initializes its first member (6.7.9p13/p20)
+                    st.flags.add('struct-expr-in-elided-array' if ct[0] == 'arr' else 'struct-expr-in-elided-struct')
                 if ct[0] == 'arr' and ct[2] is None:
                     raise Invalid("brace elision into array of unknown bound")
                 co, ct = step(co, ct, 0, st)
@@ -684,7 +888,7 @@ def evaluate(t, ini):
     return root, st
 
 
-def leaves(o, t, acc):
+def leaves(o, t, acc, anon=False):
     """[(accessor suffix, leaf type, expected dump value)] ; unions: only the active member (all members when the
     union was never mentioned: all-zero bits)."""
     k = t[0]
@@ -701,7 +905,7 @@ def leaves(o, t, acc):
     for i, (n, mt) in enumerate(t[1]):
         if k == 'un' and o.active is not None and o.active != i:
             continue
-        out += leaves(o.kids[i], mt, acc + ("." + n if n else ""))
+        out += leaves(o.kids[i], mt, acc + ("." + n if n else ""), n is None)
     return out
 
 
@@ -719,7 +923,7 @@ def render_desig(desig):
 
 
 def render(ini):
-    if ini['k'] == 'a' or ini['k'] == 's':
+    if ini['k'] in ('a', 's', 'x'):
         return ini['text']
     parts = []
     for desig, sub in ini['items']:
@@ -731,6 +935,8 @@ def thaw(x, tc=False):
     """generator tuple -> mutable initializer.  ('a', style) | ('s', elem, len, u8[, variant]) | ('l', items, tc)"""
     if x[0] == 'a':
         return {'k': 'a', 'style': x[1]}
+    if x[0] == 'x':
+        return {'k': 'x', 'ty': x[1]}
     if x[0] == 's':
         return {'k': 's', 'elem': x[1], 'len': x[2], 'u8': x[3], 'var': x[4] if len(x) > 4 else None}
     return {'k': 'l', 'items': [(list(d) if d else None, thaw(s, tc)) for d, s in x[1]], 'tc': x[2] or tc}
